@@ -49,7 +49,7 @@ pub fn action_of(c: &str) -> FaultHandlerAction {
         _ => panic!("action {c}"),
     }
 }
-fn state_ch(s: TransactionState) -> &'static str {
+pub(crate) fn state_ch(s: TransactionState) -> &'static str {
     match s {
         TransactionState::Active => "A",
         TransactionState::Suspended => "S",
@@ -352,7 +352,7 @@ pub fn parse_payload(t: &[&str]) -> PDUPayload {
     }
 }
 
-fn pdu_out_text(dest: &VariableID, pdu: &PDU) -> String {
+pub(crate) fn pdu_out_text(dest: &VariableID, pdu: &PDU) -> String {
     format!(
         "{},{},{},{}",
         if pdu.header.direction == Direction::ToReceiver { "R" } else { "S" },
@@ -362,7 +362,7 @@ fn pdu_out_text(dest: &VariableID, pdu: &PDU) -> String {
     )
 }
 
-fn ind_text(i: &Indication) -> String {
+pub(crate) fn ind_text(i: &Indication) -> String {
     match i {
         Indication::Transaction(_) => "TX".into(),
         Indication::EoFSent(_) => "EOFSENT".into(),
@@ -406,7 +406,7 @@ fn ind_text(i: &Indication) -> String {
     }
 }
 
-fn ut_text(d: Duration) -> String {
+pub(crate) fn ut_text(d: Duration) -> String {
     if d == Duration::MAX {
         "MAX".into()
     } else {
@@ -455,7 +455,7 @@ enum Tx {
     S(SendTransaction<NativeFileStore>),
 }
 
-fn res_text(r: Result<Result<(), TransactionError>, Box<dyn std::any::Any + Send>>) -> String {
+pub(crate) fn res_text(r: Result<Result<(), TransactionError>, Box<dyn std::any::Any + Send>>) -> String {
     match r {
         Ok(Ok(())) => "ok".into(),
         Ok(Err(TransactionError::UnexpectedPDU(..))) => "unexpected".into(),
@@ -464,7 +464,7 @@ fn res_text(r: Result<Result<(), TransactionError>, Box<dyn std::any::Any + Send
     }
 }
 
-async fn drain(ind_rx: &mut mpsc::Receiver<Indication>, inds: &mut Vec<Indication>) {
+pub(crate) async fn drain(ind_rx: &mut mpsc::Receiver<Indication>, inds: &mut Vec<Indication>) {
     let mut idle = 0;
     while idle < 3 {
         tokio::task::yield_now().await;
